@@ -14,6 +14,7 @@
 A recipe is deterministic from (kind, mode, the rng state): `make(kind, random.Random(seed), mode)` is how an operation
 line `hist <kind>.<mode> <seed> …` is replayed.  `recipe.data` is a JSON-able dict (useful for shrinking / reports).
 """
+import copy
 import random
 
 from harness import shims
@@ -86,6 +87,41 @@ def _quals(rng, level, shared_key=None, p_any=0.7):
 class Recipe:
     def __init__(self, kind, mode, data):
         self.kind, self.mode, self.data = kind, mode, data
+
+    # ---- near-identical recipes ------------------------------------------------------------
+    def siblings(self):
+        """Recipes that differ from this one in ONE respect (every strand flipped / one base of the genome changed /
+        chunk window moved by one / a qualifier value changed).  Building them next to the object is the adversarial
+        interleaving for cache keys: anything keyed on too little hands the sibling's Parent to the object."""
+        out = []
+
+        def walk(x, fn):
+            if isinstance(x, dict):
+                for k in list(x):
+                    x[k] = fn(k, x[k])
+                    walk(x[k], fn)
+            elif isinstance(x, list):
+                for v in x:
+                    walk(v, fn)
+
+        flip = {"+": "-", "-": "+", ".": "+"}
+        d = copy.deepcopy(self.data)
+        walk(d, lambda k, v: flip[v] if k in ("strand", "seq_strand") and v in flip else v)
+        out.append(Recipe(self.kind, self.mode, d))
+        d = copy.deepcopy(self.data)
+        g = d["genome"]
+        i = len(g) // 2
+        d["genome"] = g[:i] + ("A" if g[i] != "A" else "C") + g[i + 1:]
+        out.append(Recipe(self.kind, self.mode, d))
+        d = copy.deepcopy(self.data)
+        cs, ce = d["chunk"]
+        d["chunk"] = [cs + 1, ce] if ce - cs > 2 else [cs, ce + 1]
+        if ce - cs > 2 and self.kind not in ("single", "compound", "parent"):
+            out.append(Recipe(self.kind, self.mode, d))
+        d = copy.deepcopy(self.data)
+        walk(d, lambda k, v: {kk: vv + ["sib"] for kk, vv in v.items()} if k == "qualifiers" and isinstance(v, dict) else v)
+        out.append(Recipe(self.kind, self.mode, d))
+        return out
 
     # ---- parents -------------------------------------------------------------------------
     def _t(self, name):
